@@ -4,12 +4,14 @@ import (
 	"fmt"
 	"math/rand"
 	"net/url"
+	"sort"
 	"strings"
 	"sync"
 	"sync/atomic"
 	"time"
 
 	"github.com/anishathalye/porcupine"
+	"github.com/vicanso/pike/cache"
 	"github.com/vicanso/pike/config"
 	"github.com/vicanso/pike/server"
 	"verifh/hx"
@@ -26,6 +28,8 @@ type c18World struct {
 	// store latencies in nanoseconds (0 = none)
 	slowDelete atomic.Int64
 	slowSet    atomic.Int64
+	slowGet    atomic.Int64
+	getsBegun  atomic.Int64
 	sparePort  int
 }
 
@@ -65,6 +69,12 @@ func newC18World(r *hx.Run) *c18World {
 // script: the latencies of the scripted stores
 func (cw *c18World) script(op, key string, cur []byte) hx.StoreFault {
 	switch op {
+	case "get":
+		// (the value handed back was read before the delay: a slow read returns what was there when it began)
+		cw.getsBegun.Add(1)
+		if d := cw.slowGet.Load(); d > 0 {
+			return hx.StoreFault{Kind: "delay", Delay: time.Duration(d)}
+		}
 	case "delete":
 		if d := cw.slowDelete.Load(); d > 0 {
 			return hx.StoreFault{Kind: "delay", Delay: time.Duration(d)}
@@ -631,9 +641,126 @@ func c18Porcupine(r *hx.Run, cw *c18World, ps *plans, rnd *rand.Rand, n int) {
 	}
 }
 
+// c18SlowRead: the key is persisted but not resident (as after a restart or an eviction); a request's store read is
+// slow; the purge completes while that read is pending; a request issued after the purge must not be answered
+// from the purged version (whatever the first request, which overlaps the purge, is given).
+func c18SlowRead(r *hx.Run, cw *c18World, ps *plans, n int) {
+	for i := 0; i < n && !r.TooMany(); i++ {
+		cn := []string{"pb", "pc"}[i%2]
+		uri := fmt.Sprintf("/c18r/%d/%d", r.Seed, i)
+		key := c18Key(uri)
+		ps.set(uri, &plan{Seq: []ans{{Kind: "cacheable", T: 500}}})
+		rq := hx.Req{Addr: cw.addrs[cn], Host: c18Host, URI: uri, Timeout: 20 * time.Second}
+		cs := map[string]interface{}{"uri": uri, "cache": cn, "variant": "purge_during_slow_store_read"}
+		first := cw.Cl.Do(rq)
+		rec, have := cw.stores[cn].Peek(key)
+		if first.Label != "fetching" || !have {
+			r.InconclusiveCase("C18 slow read: first request not a fetch or nothing persisted")
+			continue
+		}
+		rec = append([]byte{}, rec...)
+		// persisted, not resident: the entry is purged and the record put back as it was
+		if pr := cw.purge(key, cn); pr.Err != nil || pr.Status != 204 {
+			r.InconclusiveCase("C18 slow read: preparing purge failed")
+			continue
+		}
+		cw.stores[cn].Put(key, rec)
+		cw.slowGet.Store(int64(400 * time.Millisecond))
+		g0 := cw.getsBegun.Load()
+		r1 := make(chan *hx.Result, 1)
+		go func() { r1 <- hx.NewClient(cw.Clock.Now).Do(rq) }()
+		began := hx.WaitUntil(5*time.Second, func() bool { return cw.getsBegun.Load() > g0 })
+		pr := cw.purge(key, cn) // completes while the read is pending
+		after := cw.Cl.Do(rq)
+		cw.slowGet.Store(0)
+		during := <-r1
+		if !began {
+			r.InconclusiveCase("C18 slow read: the store read did not begin")
+			continue
+		}
+		r.Eval(1)
+		r.Add("purges_completed_during_a_pending_store_read", 1)
+		wit := map[string]interface{}{"first": first.Brief(), "overlapping_the_purge": during.Brief(), "purge": pr.Brief(), "after_purge": after.Brief()}
+		if pr.Err != nil || pr.Status != 204 || during.Err != nil || after.Err != nil {
+			r.Violate("purge_failed", map[string]string{"variant": "slow_read"}, "purge or request failed with a slow store read", wit, cs)
+			continue
+		}
+		if after.Label == "hit" && after.FetchID == first.FetchID {
+			r.Violate("purged_version_served_after_purge_completed", map[string]string{"variant": "slow_read"}, "a request issued after the purge had completed is answered from the purged version (it shared a store read begun before the purge)", wit, cs)
+			continue
+		}
+		r.Distinct(fmt.Sprintf("slow_read %s during=%s", cn, during.Label))
+	}
+}
+
+// c18FullShards: a cache of 8 entries (every shard holds one) is filled; purges of keys that are not resident
+// (named and unnamed, through the real admin API and directly) must leave the resident set exactly as it was.
+func c18FullShards(r *hx.Run, rounds int) {
+	w := newSimpleWorld(r, hx.SimpleCfg{CacheName: "c18small", CacheSize: 8, HitForPass: "3s"}, 1, true)
+	defer w.Farm.Close()
+	w.Farm.SetScript(func(f *hx.Fetch) *hx.Reply { return replyOf(f, ans{Kind: "cacheable", T: 600}) })
+	for round := 0; round < rounds && !r.TooMany(); round++ {
+		var keys []string
+		for k := 0; k < 40; k++ {
+			uri := fmt.Sprintf("/small/%d/%d/%d", r.Seed, round, k)
+			w.Cl.Get(w.Addr, "c18.example", uri)
+			keys = append(keys, "GET c18.example "+uri)
+		}
+		resident := func() map[string]bool {
+			m := map[string]bool{}
+			for _, k := range keys {
+				if st, ok := entryState("c18small", k); ok && st.Exists {
+					m[k] = true
+				}
+			}
+			return m
+		}
+		before := resident()
+		for a := 0; a < 64; a++ {
+			absent := fmt.Sprintf("GET c18.example /small/absent/%d/%d/%d", r.Seed, round, a)
+			if a%2 == 0 {
+				if !purgeDirect(r, "c18small", absent, map[string]string{"mode": "full_shards"}) {
+					return
+				}
+			} else {
+				cache.RemoveHTTPCache("", []byte(absent))
+			}
+		}
+		after := resident()
+		r.Eval(1)
+		r.Add("purges_of_absent_keys_into_full_shards", 64)
+		r.Add("resident_entries_watched_across_absent_key_purges", int64(len(before)))
+		lost := []string{}
+		for k := range before {
+			if !after[k] {
+				lost = append(lost, k)
+			}
+		}
+		if len(lost) > 0 || len(before) == 0 {
+			sort.Strings(lost)
+			r.Violate("purge_touched_another_key", map[string]string{"mode": "full_shards"},
+				fmt.Sprintf("%d of %d resident entries of a full 8-entry cache are gone after 64 purges of keys that were not in the cache", len(lost), len(before)),
+				map[string]interface{}{"lost": lost}, map[string]interface{}{"round": round, "cache_size": 8})
+			return
+		}
+		// and one of them is still answered as a hit, without any upstream contact
+		for k := range before {
+			uri := strings.TrimPrefix(k, "GET c18.example ")
+			n0 := w.Farm.LogLen()
+			res := w.Cl.Get(w.Addr, "c18.example", uri)
+			if res.Err != nil || res.Label != "hit" || w.Farm.LogLen() != n0 {
+				r.Violate("purge_touched_another_key", map[string]string{"mode": "full_shards"}, fmt.Sprintf("resident key answered %q after purges of absent keys", res.Label), res.Brief(), map[string]interface{}{"key": k})
+				return
+			}
+			break
+		}
+		r.Distinct(fmt.Sprintf("full_shards/%d", len(before)))
+	}
+}
+
 func c18(r *hx.Run) {
 	r.MaxViol = 6 // violations here usually cost a watchdog period each
-	r.Rule = "three caches (one without store, two with scripted in-memory stores) behind three servers sharing the client-supplied Host; purges through the real admin DELETE /cache; keys with percent escapes, plus signs and of more than 512 bytes; store writes that stall for 2.3 s and then land. basics: fetch+hit on every cache, one purge variant {named, unnamed, absent cache, absent key, named twice} (in a quarter of the cases every store delete takes 25 ms), store records inspected, next request per cache and for a neighbour key judged by the entry model; slow store: a lookup issued while the purge is between LRU removal and the end of a slow store delete, a purge right after a fill whose store write is slow, and a purge called after a waiter was answered while the fetch's store write is still under way (afterwards the key must not be answered from the purged version and the record must be gone); directed: purge while the fetch is held at the origin with 1-5 parked waiters (must return before the release, nobody stranded); overlap: a second identical unnamed purge called while the first is still busy with a slow store, the key fetched again in between - after the second returns no cache may answer a hit; added cache: a reload adds a fourth cache and server, then the basics again with unnamed and named purges; porcupine: 6 clients + 2 purgers + clock advancer, per (cache,key) linearizability. Non-trivial = case with a purge of a present key; distinct = variant/partition."
+	r.Rule = "three caches (one without store, two with scripted in-memory stores) behind three servers sharing the client-supplied Host; purges through the real admin DELETE /cache; keys with percent escapes, plus signs and of more than 512 bytes; store writes that stall for 2.3 s and then land. basics: fetch+hit on every cache, one purge variant {named, unnamed, absent cache, absent key, named twice} (in a quarter of the cases every store delete takes 25 ms), store records inspected, next request per cache and for a neighbour key judged by the entry model; slow store: a lookup issued while the purge is between LRU removal and the end of a slow store delete, a purge right after a fill whose store write is slow, and a purge called after a waiter was answered while the fetch's store write is still under way (afterwards the key must not be answered from the purged version and the record must be gone); directed: purge while the fetch is held at the origin with 1-5 parked waiters (must return before the release, nobody stranded); overlap: a second identical unnamed purge called while the first is still busy with a slow store, the key fetched again in between - after the second returns no cache may answer a hit; added cache: a reload adds a fourth cache and server, then the basics again with unnamed and named purges; porcupine: 6 clients + 2 purgers + clock advancer, per (cache,key) linearizability; slow read: a persisted, non-resident key whose store read takes 400 ms, the purge completes while the read is pending, the request after the purge must not be answered from the purged version; full shards: a cache of 8 entries is filled with 40 keys, then 64 keys that are not resident are purged (named and unnamed) and the resident set must be unchanged and still answer hits. Non-trivial = case with a purge of a present key; distinct = variant/partition."
 	r.Assume = []string{"virtual clock, hook points", "the in-memory store stands for the persistent store (badger itself in C08)", "-race build"}
 	rnd := rand.New(rand.NewSource(r.Seed))
 	cw := newC18World(r)
@@ -645,6 +772,7 @@ func c18(r *hx.Run) {
 	c18Basics(r, cw, ps, rnd, r.Pick(100, 10000), "", allVariants)
 	c18Directed(r, cw, ps, rnd, r.Pick(40, 4000))
 	c18SlowStore(r, cw, ps, rnd, r.Pick(24, 1500))
+	c18SlowRead(r, cw, ps, r.Pick(6, 300))
 	cw.Pts.SetJitter([]string{"disp.got", "purge.removed", "get.registered", "get.woken"}, 200)
 	c18Porcupine(r, cw, ps, rnd, r.Pick(60, 10000))
 	cw.Pts.SetJitter(nil, 0)
@@ -654,6 +782,9 @@ func c18(r *hx.Run) {
 	r.Add("caches_added_by_reload", 1)
 	c18Basics(r, cw, ps, rnd, r.Pick(10, 300), "-added", []string{"unnamed", "unnamed", "named"})
 	r.Set("points_hit", cw.Pts.Counts())
+	// a cache whose shards are all full: purges of keys that are not there must not push anything out
+	hx.UninstallPoints()
+	c18FullShards(r, r.Pick(3, 60))
 	checkRaceLog(r)
 }
 
